@@ -132,6 +132,24 @@ theorem annotation_never_starves (anns : List Bool) (body : Arg) (i : Nat) (prod
     have := (classification_exact _).mpr hn
     simp [phase0, this]
 
+/-- Phase 0 over a whole argument list: `for arg in function_arguments { … }` -/
+def phase0All (test : RecheckTest) (args : List (Arg × Bool × Bool)) : List Status :=
+  args.map fun a => phase0 test a.1 a.2.1 a.2.2
+
+/-- **`annotation_is_local`**: Phase 0 decides every argument on its own — making a type explicit in
+argument `i` (any rewrite of that argument, and whatever its synthesis then produces) changes the
+Phase-0 status of no other argument of the call. -/
+theorem annotation_is_local (test : RecheckTest) (args : List (Arg × Bool × Bool)) (i j : Nat)
+    (a' : Arg × Bool × Bool) (hij : j ≠ i) :
+    (phase0All test (args.set i a'))[j]? = (phase0All test args)[j]? := by
+  simp only [phase0All, List.getElem?_map, List.getElem?_set]
+  by_cases h : i = j
+  · exact absurd h.symm hij
+  · simp [h]
+
+example : phase0All .producedFlag [(.lambda [false] .simple, true, true), (.simple, false, false)]
+    = [.recheckedWithHint, .checkedWithoutHint] := by decide
+
 /-- annotating never creates a need for a hint -/
 theorem annotate_monotone (anns : List Bool) (body : Arg) (i : Nat)
     (h : NeedsHint (.lambda (annotateAt i anns) body)) : NeedsHint (.lambda anns body) := by
